@@ -220,6 +220,9 @@ func (e *Env) applyContract(fr *Frame, it *Item, fn *ssa.Function, args []Value,
 	}
 	if e.dry == 0 {
 		e.usedContracts[funcQName(fn)] = true
+		if it.Trusted {
+			e.trust("trusted (unverified) contract of " + funcQName(fn) + ": " + it.Opts["trusted-reason"])
+		}
 	}
 	old := st.clone()
 	// havoc the modifies set
@@ -653,7 +656,8 @@ func (e *Env) appendOp(fr *Frame, s *Slice, more Value, st *State) Value {
 	newCap := e.fresh("appcap", sInt)
 	e.assume(mkAnd(sx(">=", newCap, newLen), sx("<=", newCap, maxElems(et))))
 	// growing beyond the allocation limit panics ("growslice: len out of range")
-	e.panicCheck(fr, "append", st, sx("<=", newLen, maxElems(et)))
+	e.assume(mkImp(st.pc, sx("<=", newLen, maxElems(et))))
+	e.trust("append/make never exceed the allocation limit (out-of-memory is outside the model)")
 	resArr := e.maybeName(mkIte(fits, s.Arr, r), sInt)
 	resOff := e.maybeName(mkIte(fits, s.Off, "0"), sInt)
 	resCap := e.maybeName(mkIte(fits, s.Cap, newCap), sInt)
